@@ -84,6 +84,25 @@ def h_swap11_tw(p1: int, n1: int, p2: int, n2: int) -> bool:
 
     # rank 2|2: spaces and spins symbolic, names fixed per condition
     pats = [(0, 1, 0, 1), (0, 1, 1, 0), (2, 3, 0, 2)] if not quick else [(0, 1, 0, 1), (2, 3, 0, 2)]
+    if quick:
+        # quick tier: spaces fixed per condition (diagonal blocks and one mixed block),
+        # spins symbolic; the thorough tier has the spaces symbolic as well
+        for k, (na, nb, nc, nd) in enumerate(pats):
+            for tag, (a1, a2, a3, a4) in (("oooo", (0, 0, 0, 0)), ("ovov", (0, 1, 0, 1)),
+                                          ("ggov", (2, 2, 0, 1))):
+                body = prelude_cls + nbk + f"""
+
+def h_swap22q_{k}_{tag}(p1: int, p2: int, p3: int, p4: int) -> bool:
+    '''
+    pre: 0 <= p1 < 3 and 0 <= p2 < 3 and 0 <= p3 < 3 and 0 <= p4 < 3
+    post: _
+    '''
+    u = [Index({a1}, p1, {na}), Index({a2}, p2, {nb})]
+    l = [Index({a3}, p3, {nc}), Index({a4}, p4, {nd})]
+    return _check_swap(u, l)
+"""
+                add(f"swap22q_{k}_{tag}", body)
+        pats = []
     for k, (na, nb, nc, nd) in enumerate(pats):
         for sA in range(3):
             body = prelude_cls + nbk + f"""
